@@ -1,0 +1,27 @@
+//go:build verif
+
+// Contracts for package resolver, checked by /verif (govc). Comment-only file.
+package resolver
+
+// ---- C11 layer 1 (argument forms): languages of the resolver regexes against the documented forms.
+//@ spec wsL() relang = reAlt(reLit(" "), reLit("\t"), reLit("\n"), reLit("\f"), reLit("\r"))
+//@ spec anyL() relang = reFull("(?s:.)*")
+
+//@ lemma lang_servicePrefix(x string)
+//@   property C11 C02
+//@   ensures [equiv] matches(x, servicePrefixRegex) <==> hasPrefix(x, "@")
+//@ lemma lang_argService(x string)
+//@   property C11 C02
+//@   ensures [equiv] matches(x, serviceRegex) <==> inLang(x, reCat(reLit("@"), yamlTokenL()))
+//@ lemma lang_taggedPrefix(x string)
+//@   property C11 C02
+//@   ensures [equiv] matches(x, taggedPrefixRegex) <==> inLang(x, reCat(reLit("!tagged"), rePlus(wsL()), anyL()))
+//@ lemma lang_argTagged(x string)
+//@   property C11 C02 C04
+//@   ensures [equiv] matches(x, taggedRegex) <==> inLang(x, reCat(reLit("!tagged"), rePlus(wsL()), yamlTokenL()))
+//@ lemma lang_valuePrefix(x string)
+//@   property C11 C02
+//@   ensures [equiv] matches(x, valuePrefixRegex) <==> inLang(x, reCat(reLit("!value"), rePlus(wsL()), anyL()))
+//@ lemma lang_argValue(x string)
+//@   property C11 C02
+//@   ensures [equiv] matches(x, valueRegex) <==> inLang(x, reCat(reLit("!value"), rePlus(wsL()), serviceValueL()))
